@@ -4,6 +4,7 @@ let run_job (job : Sx.t) : string =
   | "ssa" -> Jcirc.job_ssa job
   | "reg" -> Jcirc.job_reg job
   | "regalloc" -> Jcirc.job_regalloc job
+  | "builder" -> Jbuilder.job_builder job
   | k -> Printf.sprintf "(unknown-kind %s)" k
 
 let () =
